@@ -9,31 +9,40 @@ def nontrivial(req, obs):
     if f[0] == "C16.conv":
         return True
     # at least two candidates of which the verdict is not simply "nothing viable": count distinct decisions
-    return len(f) == 3 and f[1].count(";") >= 1 and obs != "-"
+    return len(f) in (3, 4) and f[1].count(";") >= 1 and obs != "-"
 
 
 def finding_key(req, obs, detail):
     import re
     m = re.match(r"FAIL:panic ([^:]+):\d+: (.*)$", detail or "")
     if m:
-        return "panic %s: %s" % (m.group(1), re.sub(r"\d+", "N", m.group(2)))
+        path = m.group(1)
+        for crate in ("typer/src/", "ir/src/", "parser/src/", "preprocess/src/"):
+            if crate in path:       # a scratch copy of the repository (VERIF_REPO) has another absolute prefix
+                path = path[path.index(crate):]
+                break
+        return "panic %s: %s" % (path, re.sub(r"\d+", "N", m.group(2)))
     f = req.split("\t")
-    if f[0] == "C16.resolve" and len(f) == 3:
+    if f[0] == "C16.resolve" and len(f) in (3, 4):
         # the finding is about the candidate *set* and the arguments, not about one declaration order
-        return "C16.resolve\t" + ";".join(sorted(f[1].split(";"))) + "\t" + f[2]
+        return "\t".join(["C16.resolve", ";".join(sorted(f[1].split(";"))), f[2]] + f[3:])
     return req
 
 
 def shrink(req):
     f = req.split("\t")
-    if f[0] != "C16.resolve" or len(f) != 3:
+    if f[0] != "C16.resolve" or len(f) not in (3, 4):
         return
+    tail = f[3:]
+    if tail:
+        # without the separate definitions
+        yield "\t".join(f[:3])
     cands = f[1].split(";")
     # drop one candidate
     if len(cands) > 2:
         for i in range(len(cands)):
-            yield "\t".join([f[0], ";".join(cands[:i] + cands[i + 1:]), f[2]])
-    # drop the last parameter / argument everywhere
+            yield "\t".join([f[0], ";".join(cands[:i] + cands[i + 1:]), f[2]] + tail)
+    # drop one parameter / argument position everywhere
     args = f[2].split(",")
     if len(args) > 1:
         for k in range(len(args)):
@@ -47,30 +56,60 @@ def shrink(req):
                     break
                 ps = ps[:k] + ps[k + 1:]
                 new.append("%s:%d:%s" % (cid, min(int(nd), len(ps)), ",".join(ps)))
-            if ok:
-                yield "\t".join([f[0], ";".join(new), ",".join(args[:k] + args[k + 1:])])
+            if ok and len(set(c.split(":", 2)[2] for c in new)) == len(new):
+                yield "\t".join([f[0], ";".join(new), ",".join(args[:k] + args[k + 1:])] + tail)
+    # drop trailing defaulted parameters
+    new = []
+    changed = False
+    for c in cands:
+        cid, nd, ps = c.split(":", 2)
+        ps = ps.split(",")
+        if len(ps) > len(args):
+            ps = ps[:len(args)]
+            changed = True
+        new.append("%s:%d:%s" % (cid, min(int(nd), len(ps)), ",".join(ps)))
+    if changed and len(set(c.split(":", 2)[2] for c in new)) == len(new):
+        yield "\t".join([f[0], ";".join(new), f[2]] + tail)
 
 
 def search(ctx):
-    """model-side witness search: small candidate sets over the grid on which the *model* (with the tables just
-    re-extracted) gives different verdicts for two declaration orders, selects a non-exact candidate although an
-    exact one exists, or selects a dominated candidate; they are then replayed on the implementation by vlib."""
+    """model-side witness search.  Small candidate sets over the grid are run through `rsslmodel` (which uses the
+    tables just re-extracted from the source); sets on which the *model* already violates the decidable form of the
+    property - different verdicts for two declaration orders, or a type-exact candidate that is not selected - come
+    first, the rest of the enumeration follows; vlib replays them on the implementation with the direct oracle."""
     scal = ["Bool", "Int32", "UInt32", "Float16", "Float32", "Float64"]
     tys = ["s." + s for s in scal] + ["v.%s.%d" % (s, n) for s in scal for n in (2, 3)]
     params = ["in/-/" + t for t in tys] + ["out/-/" + t for t in tys[:6]]
     args = ["L/-/" + t for t in tys] + ["R/-/" + t for t in tys] + ["R/-/s.IntLiteral", "R/-/s.FloatLiteral"]
-    reqs = []
+    groups = []     # (set key, [requests in the different orders])
     for a, b in itertools.combinations(params, 2):
         for x in args:
-            reqs.append("C16.resolve\t0:1:%s;1:1:%s\t%s" % (a, b, x))
-            reqs.append("C16.resolve\t1:1:%s;0:1:%s\t%s" % (b, a, x))
-    # triples over the scalar grid
+            groups.append([("C16.resolve\t0:1:%s;1:1:%s\t%s" % (a, b, x)), ("C16.resolve\t1:1:%s;0:1:%s\t%s" % (b, a, x))])
     sp = ["in/-/s." + s for s in scal]
     for a, b, c in itertools.combinations(sp, 3):
         for x in args[:6] + args[-2:]:
-            for perm in itertools.permutations([(0, a), (1, b), (2, c)]):
-                reqs.append("C16.resolve\t" + ";".join("%d:1:%s" % p for p in perm) + "\t" + x)
-    return reqs
+            groups.append(["C16.resolve\t" + ";".join("%d:1:%s" % p for p in perm) + "\t" + x
+                           for perm in itertools.permutations([(0, a), (1, b), (2, c)])])
+    flat = [r for g in groups for r in g]
+    try:
+        answers = ctx.run_model(flat)
+    except Exception:
+        answers = [None] * len(flat)
+    suspicious, rest = [], []
+    i = 0
+    for g in groups:
+        ans = answers[i:i + len(g)]
+        i += len(g)
+        bad = len(set(ans)) > 1
+        if not bad and ans and ans[0]:
+            f = g[0].split("\t")
+            arg_layer = f[2].split("/")[2]
+            exact = [c.split(":")[0] for c in f[1].split(";") if c.split(":", 2)[2].split("/")[2] == arg_layer]
+            if len(exact) == 1 and ans[0].startswith("sel ") and ans[0] != "sel " + exact[0]:
+                bad = True
+        (suspicious if bad else rest).extend(g)
+    ctx.extra["search_model_suspicious"] = len(suspicious)
+    return suspicious + rest[:6000]
 
 
 SPEC = {
